@@ -343,7 +343,8 @@ func (nz *normalizer) predicateBody(pk *packages.Package, file *ast.File, lit *a
 		}
 		fmt.Fprintf(&head, "var %s bool; _ = %s; ", resName, resName)
 	}
-	edits := nz.stmtEdits(pk, file, lit.Body) // (closures defined in the literal are kept or dropped by closureEdits)
+	edits := nz.stmtEdits(pk, file, lit.Body)
+	// (the literals of closures declared inside the predicate are kept "used" or removed by stmtEdits: closureEdits)
 	// the returns of the literal itself, with the loops and switches of the literal they sit in
 	type retSite struct {
 		ret       *ast.ReturnStmt
@@ -808,7 +809,7 @@ func NormalizeDir(dir, out string, pinAll bool) ([]string, error) {
 			}
 		}
 	}
-	overlay, lg := BuildOverlay(pkgs, pinned)
+	overlay, lg := buildOverlay(pkgs, pinned, os.Getenv("NEAT_KEEP_CLOSURES") != "")
 	err = filepath.Walk(dir, func(path string, fi os.FileInfo, err error) error {
 		if err != nil {
 			return err
